@@ -228,7 +228,7 @@ class AffineToJacobian:
   self_fields = F
   returns = "jpoint"
   requires = ["(p[0] is None) == (p[1] is None)"]
-  ensures = [("C11", "implies(p[0] is None, result[2] == 0)"),
+  ensures = [("C11", "implies(p[0] is None, result[0] == 1 and result[1] == 1 and result[2] == 0)"),
              ("C11", "implies(p[0] is not None, result[0] == p[0] and result[1] == p[1] and result[2] == 1)")]
   props = ["C11"]
 
